@@ -333,8 +333,12 @@ func (s *Sched) Yield(site uint32) {
 			s.budgetClient = c
 		}
 		// abort the operation in flight; every later operation of every client aborts at its first
-		// statement, so the run drains quickly
-		panic(budgetPanic{site})
+		// statement, so the run drains quickly (library calls the harness makes between operations -
+		// the environment client - are short and are simply let through)
+		if s.inOp[c] >= 0 {
+			panic(budgetPanic{site})
+		}
+		return
 	}
 	if s.overBudget {
 		return
